@@ -27,6 +27,8 @@ EXT_RELEASE = {'_ZdaPv': 'new[]', '_ZdlPv': 'new', '_ZdaPvm': 'new[]', '_ZdlPvm'
 RELEASE_NAME = {'_ZdaPv': 'delete[]', '_ZdlPv': 'delete', '_ZdaPvm': 'delete[]', '_ZdlPvm': 'delete'}
 WRAPPERS = ('yyalloc', 'yyrealloc', 'yyfree')
 
+import functools
+@functools.lru_cache(maxsize=None)
 def canon(name):
     """field / global name without back-end spelling: yy_state_buf_max, yy_state_buf_max_r, yyStateBufMax, _ZL..  -> yystatebufmax"""
     n = norm(name)
@@ -38,6 +40,10 @@ GO_ALIASES = {'yyinputbufsize': 'yybufsize', 'yystartstackoffset': 'yystartstack
 def ccanon(name):
     c = canon(name)
     return GO_ALIASES.get(c, c)
+
+def fkey(fn):
+    """function name for keys: prefix and class qualification removed (yyFlexLexer::yylex, VerifLexer::yylex, foolex -> yylex)"""
+    return norm(fn.name if not isinstance(fn, str) else fn).split('::')[-1]
 
 def node_str(n):
     k = n[0]
@@ -77,6 +83,50 @@ class Flow:
         s._solve()
 
     # ---- helpers
+    def callee_of(s, x):
+        """name of the module function a call instruction reaches: direct, or C++ virtual through the class's vtable"""
+        if isinstance(x.callee, str): return x.callee if x.callee in s.mod.functions else None
+        if x.callee is None or x.callee[0] != 'reg': return None
+        fn = x.fn
+        d = fn.def_of(x.callee)
+        if d is None or d.op != 'load': return None
+        a = fn.def_of(d.ops[0]); slot = 0
+        if a is not None and a.op == 'getelementptr' and len(a.ops) == 2 and a.ops[1][0] == 'int':
+            slot = a.ops[1][1]; a = fn.def_of(a.ops[0])
+        if a is None or a.op != 'load': return None
+        c = fn.def_of(a.ops[0])
+        if c is None or c.op != 'bitcast' or c.srcty is None: return None
+        m = re.match(r'%"?class\.([\w:]+)"?\*$', repr(c.srcty))
+        if not m: return None
+        cls = m.group(1)
+        g = s.mod.globals.get('_ZTV%d%s' % (len(cls), cls))
+        if g is None or g.init is None: return None
+        ents = list(ir.globs_in(g.init))          # [typeinfo, slot0, slot1, ...] (the leading offset-to-top entry is null)
+        if slot + 1 >= len(ents): return None
+        t = ents[slot + 1]
+        t = re.sub(r'D1Ev$', 'D2Ev', t) if t not in s.mod.functions else t      # complete-object dtor is an alias of the base-object dtor
+        return t if t in s.mod.functions else None
+
+    def callgraph(s):
+        if getattr(s, '_cg', None) is None:
+            g = {}
+            for f in s.mod.functions.values():
+                g[f.name] = set()
+                for x in f.ins:
+                    if x.op in ('call', 'invoke'):
+                        c = s.callee_of(x)
+                        if c: g[f.name].add(c)
+            s._cg = g
+        return s._cg
+
+    def reachable_fns(s, roots):
+        g = s.callgraph(); seen = set(roots); st = list(roots)
+        while st:
+            x = st.pop()
+            for y in g.get(x, ()):
+                if y not in seen: seen.add(y); st.append(y)
+        return seen
+
     def o(s, fn):
         if fn.name not in s.O: s.O[fn.name] = Origins(fn); s.res[fn.name] = ir.Resolver(fn)
         return s.O[fn.name]
@@ -121,7 +171,8 @@ class Flow:
                     for cc in s.addr_nodes(fn, o_[1], depth + 1): out.add(('D', cc))
                 elif t == 'param': out.add(('D', ('P', fn.name, o_[1])))
                 elif t == 'call':
-                    if o_[1] in s.mod.functions: out.add(('D', ('R', o_[1])))
+                    tgt = s.callee_of(o_[2])
+                    if tgt: out.add(('D', ('R', tgt)))
                     else: out.add(('D', ('X', o_[1])))
                 elif t == 'alloca': out.add(('L', fn.name, o_[1]))
                 elif t == 'global': out.add(('G', o_[1]))
@@ -136,8 +187,9 @@ class Flow:
             t = o_[0]
             if t == 'call':
                 fam = s.alloc_family(o_[1])
+                tgt = s.callee_of(o_[2])
                 if fam and fn.name not in s.wrappers: out.append(('lit', fam, o_[2]))
-                elif o_[1] in s.mod.functions: out.append(('node', ('R', o_[1])))
+                elif tgt: out.append(('node', ('R', tgt)))
                 elif o_[1] != '?': out.append(('lit', 'extern:' + o_[1], o_[2]))
             elif t == 'param': out.append(('node', ('P', fn.name, o_[1])))
             elif t == 'load':
@@ -184,8 +236,9 @@ class Flow:
                         for sc in srcs:
                             if sc[0] == 'lit' and sc[2] is not None: s.used_allocs.add(sc[2])
                         s.consumers.append((x, rf, srcs))
-                    if isinstance(x.callee, str) and x.callee in mod.functions and x.callee not in s.wrappers:
-                        cal = mod.functions[x.callee]
+                    tgt = s.callee_of(x)
+                    if tgt and tgt not in s.wrappers:
+                        cal = mod.functions[tgt]
                         for i, a in enumerate(x.ops):
                             if i >= len(cal.params): break
                             t, pn = cal.params[i]
@@ -249,13 +302,13 @@ def post_read_growth(prog, call):
     """the yyrealloc of yy_ch_buf at the end of yy_get_next_buffer: controlled directly by `yy_n_chars + number_to_move > yy_buf_size`.
     yy_n_chars is at most num_to_read = yy_buf_size - number_to_move - 1 when yyread honours its max_size argument, so the branch is
     dead for every buffer, caller-supplied ones included; it exists for YY_INPUT replacements that over-deliver."""
-    names = {ccanon(c[2]) for c in flow.controlling_locs(prog, call) if c and c[0] == 'field'}
     direct = set()
     cfg = prog.cfg(call.fn, cut=False)
     for br, t in cfg.control_deps(call.blk):
         for d, l in flow.cond_loads(call.fn, br):
             c = ir.loc_class(l)
             if c and c[0] == 'field': direct.add(ccanon(c[2]))
+            elif c and c[0] == 'global': direct.add(ccanon(c[1]))
     return {'yybufsize', 'yynchars'} <= direct and norm(call.fn.name).split('::')[-1] == 'yy_get_next_buffer'
 
 def r1(rep, v, prog, mod, F):
@@ -272,13 +325,13 @@ def r1(rep, v, prog, mod, F):
         for f in sorted(fams):
             if f in ALLOC_FAMS and f != rf:
                 bad = True
-                rep.fail('C13.R1', 'C13.R1:%s:%s:%s:%s<-%s' % (skel(v), norm(fn.name), what, rn, {'yy': 'yyalloc'}.get(f, f)), where(call),
+                rep.fail('C13.R1', 'C13.R1:%s:%s:%s:%s<-%s' % (skel(v), fkey(fn), what, rn, {'yy': 'yyalloc'}.get(f, f)), where(call),
                          '%s passes %s to %s, but that location may hold a block obtained from %s [variant %s]' %
                          (fn.name, wstr, rn, {'yy': 'yyalloc/yyrealloc', 'malloc': 'malloc'}.get(f, 'operator ' + f), v.name),
                          variant=v.describe(), replay_input=D20_REPLAY if (f == 'new[]' or rf == 'new[]') else None)
             elif f in ('static', 'stack'):
                 bad = True
-                rep.fail('C13.R1', 'C13.R1:%s:%s:%s:%s<-%s' % (skel(v), norm(fn.name), what, rn, f), where(call),
+                rep.fail('C13.R1', 'C13.R1:%s:%s:%s:%s<-%s' % (skel(v), fkey(fn), what, rn, f), where(call),
                          '%s passes %s to %s, but that location may hold the address of a %s object [variant %s]' % (fn.name, wstr, rn, f, v.name), variant=v.describe())
         if 'caller' in fams:
             own_param = any(x[0] == 'P' and x[1] == fn.name for x in nodes)
@@ -288,7 +341,7 @@ def r1(rep, v, prog, mod, F):
                 rep.note('%s %s:%s: post-read growth of yy_ch_buf excepted (dead unless yyread over-delivers)' % (v.name, fn.name, call.line))
             elif not guarded_by_ownership(prog, call):
                 bad = True
-                rep.fail('C13.R1', 'C13.R1:%s:%s:%s:%s-unguarded' % (skel(v), norm(fn.name), what, rn), where(call),
+                rep.fail('C13.R1', 'C13.R1:%s:%s:%s:%s-unguarded' % (skel(v), fkey(fn), what, rn), where(call),
                          '%s passes %s to %s although it may hold a caller-supplied block and the call is not controlled by yy_is_our_buffer [variant %s]'
                          % (fn.name, wstr, rn, v.name), variant=v.describe())
         if not bad:
@@ -315,7 +368,7 @@ def r2(rep, v, prog, mod, F):
     # (1) no allocation result is dropped
     for call in F.alloc_calls:
         n += 1
-        key = 'C13.R2:%s:%s:%s-result-dropped' % (skel(v), norm(call.fn.name), F.names.get(call.callee, call.callee))
+        key = 'C13.R2:%s:%s:%s-result-dropped' % (skel(v), fkey(call.fn), F.names.get(call.callee, call.callee))
         if call in F.used_allocs: rep.ok('C13.R2', '%s %s:%s %s result is stored, returned or released' % (v.name, call.fn.name, call.line, call.callee))
         else: rep.fail('C13.R2', key, where(call), 'the result of %s in %s reaches no field, global, caller or release call: leaked [variant %s]' % (call.callee, call.fn.name, v.name), variant=v.describe())
     # (2) every allocation is released from the destructor's call tree, or handed to the caller who has an API function for it
@@ -333,7 +386,7 @@ def r2(rep, v, prog, mod, F):
     trees = {}
     def tree(roots):
         k = tuple(sorted(roots))
-        if k not in trees: trees[k] = prog.reachable_fns(list(k))
+        if k not in trees: trees[k] = F.reachable_fns(list(k))
         return trees[k]
     sinks = {}
     for node, ls in F.lits.items():
@@ -366,7 +419,7 @@ def r2(rep, v, prog, mod, F):
                 for x in mod.functions[m[1][1]].ins:
                     if x.op == 'store' and x.ty is not None and x.ty.k == 'ptr' and m in F.addr_nodes(x.fn, x.ops[1]): handed.append((repr(x.ty), 'stored through parameter %s of %s' % (m[1][2], m[1][1])))
         first = sorted(node_key(x) for x in start)[0] if start else 'direct'
-        key0 = 'C13.R2:%s:%s:%s->%s' % (skel(v), norm(call.fn.name), F.names.get(call.callee, call.callee), first)
+        key0 = 'C13.R2:%s:%s:%s->%s' % (skel(v), fkey(call.fn), F.names.get(call.callee, call.callee), first)
         if released:
             m, c2, roots = released
             rep.ok('C13.R2', '%s %s:%s %s -> %s; released by %s(%s)@%s in the call tree of %s' % (v.name, call.fn.name, call.line, call.callee, first, relname(F, c2), node_str(m), c2.fn.name, '/'.join(norm(r) for r in roots)))
@@ -432,16 +485,26 @@ def test_points(F, prog, fn, memo, depth=0):
     pts = set(capacity_tests(F, fn))
     if depth < 3:
         for x in fn.ins:
-            if x.op in ('call', 'invoke') and isinstance(x.callee, str) and x.callee in F.mod.functions and x.callee != fn.name:
-                if always_tests(F, prog, F.mod.functions[x.callee], memo, depth + 1): pts.add(x)
+            if x.op in ('call', 'invoke'):
+                tgt = F.callee_of(x)
+                if tgt and tgt != fn.name and always_tests(F, prog, F.mod.functions[tgt], memo, depth + 1): pts.add(x)
     return pts
 
 def has_reject(mod, F):
-    return any(_named(n, 'yystatebufmax') for n in F.fam) or any(ccanon(g) == 'yystatebufmax' for g in mod.globals) or \
-           any(ccanon(f) == 'yystatebufmax' for t in mod.types for f in (mod.struct_fields(t) or []))
+    """the variant records states for REJECT: some function other than the (re)initialisers reads or writes yy_state_buf_max"""
+    for fn in mod.functions.values():
+        if norm(fn.name).split('::')[-1] in ('yy_init_globals', 'ctor_common'): continue
+        F.o(fn); res = F.res[fn.name]
+        for x in fn.ins:
+            if x.op in ('load', 'store'):
+                c = ir.loc_class(res.loc(x.ops[0] if x.op == 'load' else x.ops[1]))
+                if c and ((c[0] == 'field' and ccanon(c[2]) == 'yystatebufmax') or (c[0] == 'global' and ccanon(c[1]) == 'yystatebufmax')): return True
+    return False
 
 def r3(rep, v, prog, mod, F):
     n = 0; memo = {}
+    loaders = {f for f in mod.functions if norm(f).split('::')[-1] == 'yy_load_buffer_state'}
+    if not loaders: rep.broken('variant %s has no yy_load_buffer_state' % v.name)
     for fn in mod.functions.values():
         if not fn.blocks or fn.name in F.wrappers: continue
         events = []
@@ -458,13 +521,17 @@ def r3(rep, v, prog, mod, F):
         cfg = prog.cfg(fn)
         pts = test_points(F, prog, fn, memo)
         for x, what in events:
+            # the new buffer becomes the one being scanned only when the scanning pointers are loaded from it
+            after = cfg.reach(x)
+            if not any(y.op in ('call', 'invoke') and (F.callee_of(y) or '') in loaders for y in after):
+                rep.note('%s %s:%s %s but does not load the buffer state (the buffer is activated later by yylex/yyrestart)' % (v.name, fn.name, x.line, what)); continue
             n += 1
             esc = [y for y in cfg.reach(x, avoid=pts) if y.op == 'ret']
             if not esc:
                 rep.ok('C13.R3', '%s %s:%s %s; every path to return passes a comparison with yy_state_buf_max' % (v.name, fn.name, x.line, what))
             else:
                 p = cfg.path(x, lambda y: y.op == 'ret', avoid=pts)
-                rep.fail('C13.R3', 'C13.R3:%s:%s:no-capacity-test' % (skel(v), norm(fn.name)), where(x),
+                rep.fail('C13.R3', 'C13.R3:%s:%s:no-capacity-test' % (skel(v), fkey(fn)), where(x),
                          '%s %s but can return without comparing yy_state_buf_max with the size of the buffer that is now current: the REJECT state buffer may be too small for it [variant %s]'
                          % (fn.name, what, v.name), witness=['%s:%s' % (y.blk.name, y.line) for y in p] if p else None, variant=v.describe(), replay_input=D16_REPLAY)
     return n
@@ -475,12 +542,32 @@ D16_REPLAY = ('%option noyywrap\n%%\n[a-z]+x { REJECT; }\n.|\\n { }\n%%\nint mai
 # ---------------------------------------------------------------- R4
 
 R4_EXCEPT = {
-    ('yy_delete_buffer', 'yy_ch_buf'): 'the buffer structure that contains the field is itself released by the next statement',
+    ('yy_delete_buffer', 'yychbuf'): 'the buffer structure that contains the field is itself released by the next statement',
 }
 R4_DTOR_EXCEPT = 'yyFlexLexer::~yyFlexLexer'      # the object ceases to exist; members cannot be read afterwards
 
+def overwrite_points(F, prog, fn, nodes, memo, depth=0):
+    """instructions of fn after which the storage `nodes` hold a fresh value: pointer stores to them, and calls to scanner
+    functions that store to them on every path (yy_init_globals after the frees of yylex_destroy)"""
+    out = [x for x in fn.ins if x.op == 'store' and x.ty is not None and x.ty.k == 'ptr' and (F.addr_nodes(fn, x.ops[1]) & nodes)]
+    if depth < 2:
+        for x in fn.ins:
+            if x.op in ('call', 'invoke'):
+                tgt = F.callee_of(x)
+                if tgt and tgt != fn.name and tgt not in F.wrappers and always_overwrites(F, prog, F.mod.functions[tgt], nodes, memo, depth + 1): out.append(x)
+    return out
+
+def always_overwrites(F, prog, fn, nodes, memo, depth):
+    k = (fn.name, frozenset(nodes))
+    if k in memo: return memo[k]
+    memo[k] = False
+    pts = overwrite_points(F, prog, fn, nodes, memo, depth)
+    ok = bool(pts) and not any(x.op == 'ret' for x in prog.cfg(fn).reach(fn.entry.ins[0], avoid=pts, include_start=True))
+    memo[k] = ok
+    return ok
+
 def r4(rep, v, prog, mod, F):
-    n = 0
+    n = 0; ovmemo = {}
     for call, rf, srcs in F.consumers:
         fn = call.fn
         stor = [sc[1] for sc in srcs if sc[0] == 'node' and sc[1][0] in ('F', 'G', 'D') and not (sc[1][0] == 'D' and sc[1][1][0] in ('P', 'R', 'X', 'L') and False)]
@@ -491,21 +578,23 @@ def r4(rep, v, prog, mod, F):
         if base == R4_DTOR_EXCEPT:
             rep.ok('C13.R4', '%s %s: release in the destructor, object ends (excepted)' % (v.name, fn.name)); continue
         cfg = prog.cfg(fn)
-        ov = [x for x in fn.ins if x.op == 'store' and x.ty is not None and x.ty.k == 'ptr' and (F.addr_nodes(fn, x.ops[1]) & set(stor))]
-        esc = [y for y in cfg.reach(call, avoid=ov) if y.op == 'ret']
+        ov = overwrite_points(F, prog, fn, set(stor), ovmemo)
+        again = [c2 for c2, _, s2 in F.consumers if c2.fn is fn and c2 is not call and any(sc[0] == 'node' and sc[1] in stor for sc in s2)]
+        after = cfg.reach(call, avoid=ov)
+        esc = [y for y in after if y.op == 'ret' or y in again]
         what = ','.join(sorted(node_key(x) for x in stor))
         if not esc:
             rep.ok('C13.R4', '%s %s:%s %s(%s): the location is overwritten on every path to return' % (v.name, fn.name, call.line, relname(F, call), what))
             continue
-        ex = [k for k in R4_EXCEPT if k[0] == base and any(node_key(x) == k[1] for x in stor)]
+        ex = [k for k in R4_EXCEPT if k[0] == base.split('::')[-1] and any(x[0] == 'F' and ccanon(x[2]) == k[1] for x in stor)]
         if ex:
             # the exception is valid only while the container really is released afterwards
             later = [c2 for c2, _, s2 in F.consumers if c2.fn is fn and c2 is not call and any(sc[0] == 'node' and sc[1][0] == 'P' and sc[1][1] == fn.name for sc in s2)]
-            if later and not any(y.op == 'ret' for y in cfg.reach(call, avoid=later)):
+            if later and not any(y.op == 'ret' for y in cfg.reach(call, avoid=later)) and not any(y in again for y in esc):
                 rep.ok('C13.R4', '%s %s:%s %s(%s): excepted - %s' % (v.name, fn.name, call.line, relname(F, call), what, R4_EXCEPT[ex[0]])); continue
-        p = cfg.path(call, lambda y: y.op == 'ret', avoid=ov)
-        rep.fail('C13.R4', 'C13.R4:%s:%s:%s' % (skel(v), base, what), where(call),
-                 '%s releases the block held in %s and can return with the stale pointer still stored there (later use or second free) [variant %s]' % (fn.name, what, v.name),
+        p = cfg.path(call, lambda y: y.op == 'ret' or y in again, avoid=ov)
+        rep.fail('C13.R4', 'C13.R4:%s:%s:%s' % (skel(v), fkey(fn), what), where(call),
+                 '%s releases the block held in %s and can %s with the stale pointer still stored there [variant %s]' % (fn.name, what, 'release it again' if any(y in again for y in esc) else 'return', v.name),
                  witness=['%s:%s' % (y.blk.name, y.line) for y in p] if p else None, variant=v.describe())
     # the current-buffer slot must be cleared when the buffer it names is deleted
     for fn in mod.functions.values():
@@ -599,7 +688,7 @@ def r5(rep, v, prog, mod, F):
         if nn in init_stores:
             rep.ok('C13.R5', '%s %s: zero-tested then assigned in %s (line %s); reset by %s' % (v.name, node_str(nn), fn.name, br.line, init.name))
         else:
-            rep.fail('C13.R5', 'C13.R5:%s:%s:not-reset:%s' % (skel(v), norm(init.name), node_key(nn)), where(br),
+            rep.fail('C13.R5', 'C13.R5:%s:%s:not-reset:%s' % (skel(v), fkey(init), node_key(nn)), where(br),
                      '%s decides initialisation by testing %s for zero, but %s does not reset it: a destroyed scanner that is used again skips that initialisation [variant %s]'
                      % (fn.name, node_str(nn), init.name, v.name), variant=v.describe())
     # yylex_destroy: init is called, after the frees; companions reset
@@ -631,7 +720,7 @@ def r5(rep, v, prog, mod, F):
                     n += 1
                     hit = [s_ for s_ in init_stores if _named(s_, comp)]
                     if hit: rep.ok('C13.R5', '%s %s released in yylex_destroy; companion %s reset by %s' % (v.name, nm, node_str(hit[0]), init.name))
-                    else: rep.fail('C13.R5', 'C13.R5:%s:%s:companion:%s' % (skel(v), norm(init.name), comp), fwhere(init),
+                    else: rep.fail('C13.R5', 'C13.R5:%s:%s:companion:%s' % (skel(v), fkey(init), comp), fwhere(init),
                                    '%s is released by yylex_destroy but its companion %s is not reset by %s: stale capacity/index after reuse [variant %s]' % (nm, comp, init.name, v.name), variant=v.describe())
     return n
 
@@ -653,7 +742,7 @@ def r6(rep, v, prog, mod, F):
         n += 1
         size = call.ops[1] if F.names.get(call.callee) == 'yyrealloc' else call.ops[0]
         lin = linear(F, fn, size)
-        key = 'C13.R6:%s:%s:%s' % (skel(v), norm(fn.name), F.names.get(call.callee, call.callee))
+        key = 'C13.R6:%s:%s:%s' % (skel(v), fkey(fn), F.names.get(call.callee, call.callee))
         if lin is None:
             rep.broken('C13.R6: cannot normalise the size expression of %s in %s [variant %s]' % (call.callee, fn.name, v.name))
         const, terms = lin
@@ -736,9 +825,9 @@ def controls(ctx):
             'C13.R1:cpp-flex.skl:yy_ctl_grow:yy_state_buf:yyrealloc<-static',      # field may hold the address of a static array
             'C13.R1:cpp-flex.skl:yy_ctl_drop_text:yy_ch_buf:yyfree-unguarded',     # caller-supplied text freed without the ownership test
             'C13.R2:cpp-flex.skl:yy_ctl_leak:yyalloc-result-dropped',
-            'C13.R2:cpp-flex.skl:yy_scratch:never-released',
-            'C13.R2:cpp-flex.skl:yy_ctl_make_thing:handed-out-no-release',
-            'C13.R3:cpp-flex.skl:yy_ctl_push:slot-store', 'C13.R3:cpp-flex.skl:yy_ctl_pop:stack-top',
+            'C13.R2:cpp-flex.skl:yy_ctl_names:yyalloc->yy_scratch:never-released',
+            'C13.R2:cpp-flex.skl:yy_ctl_make_thing:yyalloc->result-of-yy_ctl_make_thing:handed-out-no-release',
+            'C13.R3:cpp-flex.skl:yy_ctl_push:no-capacity-test', 'C13.R3:cpp-flex.skl:yy_ctl_pop:no-capacity-test',
             'C13.R4:cpp-flex.skl:yy_ctl_shrink:yy_start_stack',
             'C13.R5:cpp-flex.skl:yy_init_globals:not-reset:yy_scratch',
             'C13.R5:cpp-flex.skl:yy_init_globals:companion:yystartstackdepth',
@@ -746,7 +835,9 @@ def controls(ctx):
             'C13.R6:cpp-flex.skl:yy_ctl_new_buffer:yyalloc']
     for k in want:
         if k not in keys: rep.broken('positive control: rule did not fire on selftest/c13_control.c (%s missing; got %s)' % (k, sorted(keys)))
-    clean = [k for k in keys if ':yy_ctl_ok' in k or ':yy_buffer_stack:' in k]
+    # clean twins: nothing about them except the field-based spill-over of the yy_state_buf family into yy_ctl_ok_switch (R1)
+    clean = [k for k in keys if re.search(r':(yy_ctl_ok_buffer|yy_ctl_ok_push_state|yy_delete_buffer|yyensure_buffer_stack|yy_ctl_wrap_text|yylex_init):', k)
+             or (':yy_ctl_ok_switch:' in k and not k.startswith('C13.R1:')) or ':yy_buffer_stack:' in k or ':not-reset:yy_buffer_stack' in k or ':not-reset:yy_start_stack' in k]
     if clean: rep.broken('positive control: rule fired on a clean construct of selftest/c13_control.c: %s' % clean)
     rep.note('positive controls: %d expected reports raised on selftest/c13_control.c, clean constructs silent' % len(want))
     return len(want)
@@ -779,7 +870,7 @@ def run(ctx):
     rep.setcount('positive_control_reports', nctl)
     rep.floor('C13.R1', 800, '>=8 release calls in each of >=100 variants')
     rep.floor('C13.R2', 1500, '>=8 allocation sites + >=4 storage locations + >=2 hand-outs per variant')
-    rep.floor('C13.R3', 80, '>=5 buffer-switch events in each of >=16 REJECT variants')
+    rep.floor('C13.R3', 30, '>=5 buffer-switch events in each of >=16 REJECT variants')
     rep.floor('C13.R4', 600, '>=6 releases of stored pointers per variant')
     rep.floor('C13.R5', 700, '>=4 lazily initialised locations + destroy order + companions per variant')
     rep.floor('C13.R6', 200, '2 allocation sites of yy_ch_buf per variant')
